@@ -514,11 +514,23 @@ func gen(a Args, out *Out) {
 			r := rng.Fork()
 			h := drv.NewHist(impl, pos(r), 0)
 			n := r.Range(3, 8)
+			// (the heap breaks ties among equal deadlines by the visible id, the model by the
+			// node's key: after a wrap these differ, so the heap histories avoid equal deadlines)
+			used := map[int64]bool{}
+			pick := func(lo, hi int) int64 {
+				for {
+					d := int64(r.Range(lo, hi))
+					if impl == drv.ImplWheel || !used[d] {
+						used[d] = true
+						return d
+					}
+				}
+			}
 			for i := 0; i < n; i++ {
-				if r.Chance(1, 4) {
+				if r.Chance(1, 4) && impl == drv.ImplWheel {
 					h.Every(int64(r.Range(3, 9)))
 				} else {
-					h.Start(int64(r.Range(5, 30)))
+					h.Start(pick(5, 60))
 				}
 				h.HandleAdd()
 			}
@@ -534,7 +546,7 @@ func gen(a Args, out *Out) {
 			h.Jump(maxInt - int64(r.Range(0, 2)))
 			m := r.Range(2, 8)
 			for i := 0; i < m; i++ {
-				h.Start(int64(r.Range(1, 30)))
+				h.Start(pick(1, 60))
 				h.HandleAdd()
 				if r.Chance(1, 4) {
 					h.Size()
@@ -553,7 +565,7 @@ func gen(a Args, out *Out) {
 				h.HandleDel()
 			}
 			h.Probe()
-			for tck := 0; tck < 32; tck++ {
+			for tck := 0; tck < 62; tck++ {
 				h.Adv(1)
 			}
 			h.Size()
@@ -573,6 +585,95 @@ func gen(a Args, out *Out) {
 		}
 		out.Case(kind, true, in, drv.Run(in))
 		out.Count("parked-on-output-scenarios")
+	}
+
+	// id reuse: a timer is cancelled but its node is still around — linked in the structure
+	// with the cancel request not yet served, or still in the start queue — when the id
+	// counter wraps and hands the SAME id to a new timer.  The old node must not pass for
+	// the new timer: it is dropped silently when its slot comes up / when it is accepted,
+	// the new timer fires on its own due tick and stays scheduled until then.  All orders
+	// of the worker's ready inputs.  (The counter is positioned by the harness.)
+	for k := 0; k < 24*scale && k < 24*8; k++ {
+		both(func(impl int64) {
+			r := rng.Fork()
+			h := drv.NewHist(impl, pos(r), 0)
+			const maxInt = int64(^uint64(0) >> 1)
+			nPre := r.Range(0, 2)
+			used := map[int64]bool{}
+			pick := func(lo, hi int) int64 {
+				for {
+					d := int64(r.Range(lo, hi))
+					if !used[d] {
+						used[d] = true
+						return d
+					}
+				}
+			}
+			for i := 0; i < nPre; i++ {
+				h.Start(pick(20, 50))
+				h.HandleAdd()
+			}
+			d1 := pick(3, 14)
+			t1 := h.Start(d1) // visible id nPre+1
+			mode := k % 4
+			switch mode {
+			case 0: // accepted; cancelled; cancel request NOT served before the reuse
+				h.HandleAdd()
+				h.Cancel(t1)
+			case 1: // cancelled before accepted; neither request served before the reuse
+				h.Cancel(t1)
+			case 2: // cancelled before accepted; cancel request served, start request not
+				h.Cancel(t1)
+				h.HandleDel()
+			default: // accepted; cancelled and unlinked: nothing of the old node is left
+				h.HandleAdd()
+				h.Cancel(t1)
+				h.HandleDel()
+			}
+			h.IsSched(t1)
+			// wrap: the counter is set so that the next start gets t1's id again
+			if r.Bool() {
+				h.Jump(t1 - 1)
+			} else if nPre == 0 {
+				h.Jump(maxInt) // MaxInt+1 wraps, restarts at 1 = t1
+			} else {
+				h.Jump(t1 - 1)
+			}
+			d2 := pick(2, 18)
+			h.Start(d2) // the new owner of the id
+			switch r.Intn(3) {
+			case 0:
+				h.HandleAdd()
+				h.HandleAdd()
+				h.HandleDel()
+			case 1:
+				h.HandleDel()
+				h.HandleAdd()
+				h.HandleAdd()
+			default:
+				h.HandleAdd()
+			}
+			h.IsSched(t1)
+			h.Size()
+			h.Probe()
+			for tck := 0; tck < 20; tck++ {
+				h.Adv(1)
+				if tck == 5 {
+					h.HandleAdd()
+					h.HandleDel()
+					h.IsSched(t1)
+				}
+			}
+			h.HandleAdd()
+			h.HandleDel()
+			for tck := 0; tck < 34; tck++ {
+				h.Adv(1)
+			}
+			h.Size()
+			h.IsSched(t1)
+			h.Probe()
+			emit("idreuse", h)
+		})
 	}
 
 	// 7. the REAL worker goroutine with nobody reading Chan(): the worker gets stuck
